@@ -5,7 +5,7 @@
    open_registry() reads that file; a fresh instance of class k is set from the cache". *)
 From Coq Require Import List NArith ZArith.
 Import ListNotations.
-Require Import Base.Wire Base.PyStr C15.Model C15.Lemmas C15.Names C15.Codec C15.Split C15.File C15.FileMulti C15.Tree C15.Final C15.Atomic C15.Gen C15.Restart C15.Wrapped C15.NormRT C15.Reset C15.ResetWorld.
+Require Import Base.Wire Base.PyStr C15.Model C15.Lemmas C15.Names C15.Codec C15.Split C15.File C15.FileMulti C15.Tree C15.Final C15.Atomic C15.Gen C15.Restart C15.Wrapped C15.NormRT C15.Reset C15.ResetWorld C15.Width.
 Require Import gen.T15.
 
 (* ---- names: split inverts join for every non-empty list of names (full statement since the
@@ -386,3 +386,39 @@ Theorem C15_reset_survives_reload_net :
     Ok (mktw (S (w_clk w3)) (w_glm w3) (w_cache w3) (w_file w3) (w_vars w3), [t_val tv [n]]).
 Proof. exact reset_survives_reload_net. Qed.
 Print Assumptions C15_reset_survives_reload_net.
+
+(* ---- NormalizedString: the NAME is part of the round trip.  serialize() wraps to
+   wrap_width name = max(WRAP_COLS - (length name + WRAP_EXTRA), WRAP_MIN) columns (constants regenerated
+   from the source); textwrap refuses a width <= 0 and registry.close() then leaves the line out
+   (norm_file = the empty text).  Since the repair of C15.F31 (WRAP_MIN > 0) the line is written for every
+   name, and the value-level round trip holds with no bound on the length of the name. *)
+Theorem C15_wrap_width_positive : forall name, Nat.eqb (wrap_width name) 0 = false.
+Proof. exact wrap_width_positive. Qed.
+Print Assumptions C15_wrap_width_positive.
+
+Theorem C15_normalized_roundtrip_any_name :
+  forall name fresh v W ws,
+  name_ok name = true -> vstr v = true -> normalize v = v ->
+  words_ok W -> join [SP] W = string_str v -> chunking W ws ->
+  norm_save_reload name (chunks_of ws) fresh = Ok v.
+Proof. exact normalized_roundtrip_any_name. Qed.
+Print Assumptions C15_normalized_roundtrip_any_name.
+
+Theorem C15_normalized_roundtrip_any_name_empty :
+  forall name fresh, name_ok name = true -> norm_save_reload name [] fresh = Ok [].
+Proof. exact normalized_roundtrip_any_name_empty. Qed.
+Print Assumptions C15_normalized_roundtrip_any_name_empty.
+
+(* the expression without a minimum (the tree before the repair): from WRAP_COLS - WRAP_EXTRA = 74 characters on
+   the width is 0; witness: a name of 74 characters, nothing is written, the reload gives the default *)
+Theorem C15_wrap_without_minimum_refuted :
+  name_ok long_name = true /\ length long_name = 74%nat /\ wrap_width_with 0 long_name = 0%nat /\
+  norm_file_with 0 long_name [[119]] = [] /\
+  norm_reload_with 0 long_name [[119]] [100] = Ok [100].
+Proof. exact no_minimum_loses_value. Qed.
+Print Assumptions C15_wrap_without_minimum_refuted.
+
+Theorem C15_wrap_without_minimum_zero_iff :
+  forall name, wrap_width_with 0 name = 0%nat <-> (WRAP_COLS - WRAP_EXTRA <= length name)%nat.
+Proof. exact no_minimum_width_zero_iff. Qed.
+Print Assumptions C15_wrap_without_minimum_zero_iff.
